@@ -112,7 +112,9 @@ ExecRes(c, fault) ==
          ELSE IF ds[c.hash].st = "succeeded"
               THEN [r |-> "ok", st |-> "succeeded", gen |-> ds[c.hash].gen, key |-> ds[c.hash].key]
          ELSE [r |-> "ok", st |-> ds[c.hash].st, gen |-> ds[c.hash].gen]
-    [] c.kind = "ds" ->
+    [] c.kind = "ds" /\ c.key = "other" ->          \* a key the model does not know: the write is the node's business
+         [r |-> "ok", applied |-> TRUE, gen |-> 0]
+    [] c.kind = "ds" /\ c.key # "other" ->
          LET v == DsVerdict(c.hash, c) IN
          IF ~v.ok THEN [r |-> "refused", applied |-> FALSE]
          ELSE IF fault = "reject" THEN [r |-> "fault", applied |-> FALSE]
